@@ -83,8 +83,30 @@ def extra_backends(prop, tier, seed):
     return kani.run(hs) if hs else None
 
 
+A_MACROS = [
+    A_COMMON[0],
+    'A-dep: syn / proc_macro2 types are stubs (contracts/macros_stub.rs): an identifier or token stream is abstracted by its text; to_string() is a function of that text; clone preserves it. '
+    'evaluate_cfgs is assumed to be a deterministic function of the lookup table and the predicates (its body reads a HashMap<String, bool>).',
+    'A-derive: the derived Clone impls of the parse types (ParseQueryParam, ParseQueryParamType, ParseAttributeCfg) are field-wise (the derives are dropped by R-derive and replaced by trusted stand-ins).',
+    'A-std: String obeys the HashMap key model (vstd has this axiom for the primitive types only); Vec::drain(..) consumed by a for loop yields the elements in order (R-drain).',
+    'Caller assumptions (preconditions of bind_query_params): the parser never produces the reserved parameter variants Option/With/Without; archetype names of one world are pairwise distinct.',
+    'Partial claim: the emitted token streams, the compile errors reaching the user, and the parsers (macros/src/parse/*) are outside these contracts.',
+    'R-rules: the verified text is the text of macros/src/{data.rs, generate/query.rs, parse/*.rs (struct definitions)} after R-items, R-derive, R-syn, R-drain, R-continue, R-optmap, R-lettype (DESIGN.md section 3).',
+]
+
+
 def meta_for(prop):
     m = {'assumptions': list(A_COMMON), 'trusted_base': list(TB_COMMON)}
+    if prop in ('C05', 'C15'):
+        m = {'assumptions': list(A_MACROS), 'trusted_base': ['Verus 0.2026.09.13 (rust_verify, vstd)', 'Z3 (bundled with Verus)', 'rustc 1.98.1 front end',
+                                                              'gv/extract.py extraction rules (R-*)', 'contracts/macros_stub.rs (syn stand-ins)']}
+        if prop == 'C15':
+            m['assumptions'].append('Kani harness select_conversions_all_ids (one declared world) is a complete check of the generated Select* tables for THAT declaration only.')
+    if prop in ('C06', 'C07', 'C09'):
+        m['assumptions'] = list(A_COMMON) + [
+            'A-gen-arch: the generated archetype struct is a thin wrapper delegating 1:1 to StorageN; the template harnesses use a hand-written model of it (contracts/tmpl_schema.rs) whose delegations are compared textually with macros/src/generate/world.rs and src/traits.rs on every run (exit 2 when out of date). The archetype type parameter is a separate tag type (R-tmpl-tag).',
+            'R-tmpl: the ecs_iter!/ecs_iter_destroy! templates are instantiated for ONE schema (two archetypes over Storage2, parameters Entity<_>, EntityDirect<_>, &mut CompX); the user closure is an unspecified stand-in; universality over programs is not claimed.',
+        ]
     if prop == 'C19':
         m['all_props'] = True
     return m
